@@ -385,4 +385,204 @@ theorem vlive_step {c c' : Cfg} {tid : Queue.Tid} {lbl : String}
           (Queue.inert_xok _)
       · exact hfreshV k qk hk1 hk2 hqk
 
+/-! ### the other clauses -/
+
+/-- only the end of `maybe_stop` leads into the join -/
+theorem step_not_join {c c' : Cfg} {tid : Queue.Tid} {lbl : String} {t : Thread}
+    (ht : c.ths[tid]? = some t) (h : step c tid = some (lbl, c')) (hpc : t.pc = .lkJoin ∨ t.pc = .lkAcq) :
+    ∀ t', c'.ths[tid]? = some t' → t'.pc ≠ .lkJoin := by
+  unfold step at h
+  simp only [ht] at h
+  rcases hpc with hpc | hpc <;> simp only [hpc] at h
+  · cases he : c.sh.enqThread with
+    | none => simp [he] at h
+    | some p =>
+      simp only [he] at h
+      cases hp : c.ths[p]? with
+      | none => simp [hp] at h
+      | some tp =>
+        simp only [hp, afterStop, install, failInit] at h
+        cases hprog : t.prog <;> simp only [hprog] at h <;> qeff_split <;>
+          (intro t' ht'; rw [getElem?_setTh ht] at ht'; cases ht'; simp)
+  · simp only [beginStop, install, failInit] at h
+    cases hprog : t.prog <;> simp only [hprog] at h <;> qeff_split <;>
+      (intro t' ht'; rw [getElem?_setTh ht] at ht'; cases ht'; simp_all)
+
+theorem vinv_init (p : Nat) (progs : List Prog) (hreq : Requests progs) : VInv (init p progs) := by
+  have hstart : ∀ (tid : Queue.Tid) (t : Thread), (init p progs).ths[tid]? = some t →
+      t.pc = .start ∧ ∀ k, t.prog ≠ .producer k := by
+    intro tid t ht
+    cases tid with
+    | zero =>
+      simp only [init, List.getElem?_cons_zero, Option.some.injEq] at ht; subst ht
+      exact ⟨rfl, by intro k hk; cases hk⟩
+    | succ n =>
+      simp only [init, List.getElem?_cons_succ, List.getElem?_map, Option.map_eq_some_iff] at ht
+      obtain ⟨p0, hp0, rfl⟩ := ht
+      exact ⟨rfl, hreq p0 (List.mem_of_getElem? hp0)⟩
+  refine ⟨?_, ?_, ?_, ?_, ?_⟩
+  · intro k q hq; simp [init] at hq
+  · intro tid t k ht hp; exact absurd hp ((hstart tid t ht).2 k)
+  · intro tid t k ht hp; exact absurd hp ((hstart tid t ht).2 k)
+  · intro tid t ht hpc; rw [(hstart tid t ht).1] at hpc; cases hpc
+  · intro k hk; simp [init] at hk
+
+set_option maxHeartbeats 800000 in
+theorem vinv_step {c c' : Cfg} {tid : Queue.Tid} {lbl : String}
+    (hG : GInv c) (hG' : GInv c') (hI : IInv c) (hU : UInv c) (hS : SInv c) (hS' : SInv c') (hV : VInv c)
+    (h : step c tid = some (lbl, c')) : VInv c' := by
+  refine ⟨vlive_step hG hG' hI hU hS hS' hV h, ?_, ?_, ?_, ?_⟩
+  all_goals
+    obtain ⟨t, ht⟩ := step_some_thread h
+    obtain ⟨t', hk, hl⟩ := step_eff ht h
+    have hself := hk.get_self ht
+    have hq : QEff c c' tid t t' := by
+      obtain ⟨t'', h1, h2⟩ := step_qeff ht h
+      rw [hself] at h1
+      cases h1
+      exact h2
+    have hprog : t'.prog = t.prog := hl.prog
+    have hshape := hS.shapeP tid t
+  · -- sa
+    intro j u k hu hp hsa
+    rcases hk.get_inv ht hu with ⟨-, rfl⟩ | ⟨-, hu0⟩ | ⟨hj, -, -, h3, -⟩
+    · rw [hprog] at hp
+      cases hq with
+      | none hqs hnew hpc hprod hstop hget hstart hjoin hstartP =>
+        rcases hshape k ht hp with ⟨a, b⟩ | ⟨a, -⟩ | a
+        · obtain ⟨-, e, -⟩ := hprod (hstartP a k hp)
+          rw [e]; exact hV.sa tid t k ht hp b
+        · exact absurd a hpc.2.2.1
+        · exact absurd a hpc.2.2.2
+      | op q q' qt' lbl0 hq0 hst hq' hqs hnew hpc hprod hget hstop =>
+        exfalso
+        have hpc' : t.pc = .prod := by
+          rcases hshape k ht hp with ⟨a, -⟩ | ⟨a, -⟩ | a
+          · rcases hpc with h5 | h5 | h5 <;> rw [a] at h5 <;> cases h5
+          · exact a
+          · rcases hpc with h5 | h5 | h5 <;> rw [a] at h5 <;> cases h5
+        obtain ⟨t'', h1, hqt'⟩ := step_prod_qt ht hpc' hq0 hst h
+        rw [hself] at h1; cases h1
+        have hkind : pcKind t.qt.pc = some .producer := by
+          rcases hshape k ht hp with ⟨a, -⟩ | ⟨-, -, a⟩ | a
+          · rw [hpc'] at a; cases a
+          · exact a
+          · rw [hpc'] at a; cases a
+        have hns : t.qt.pc ≠ .start := by intro h0; rw [h0] at hkind; cases hkind
+        obtain ⟨-, -, -, p0, p1, p2⟩ := (Queue.stepThread_stop lbl0 q' qt' hst hns).2.1 hkind
+        rw [hqt'] at hsa
+        have h0 : ph qt'.pc = 0 := by rw [hsa]; rfl
+        rcases ph_cases t.qt.pc with h6 | h6 | h6
+        · rw [(p0 h6).1] at h0; cases h0
+        · rcases p1 h6 with h7 | ⟨h7, -⟩ <;> rw [h7] at h0 <;> cases h0
+        · rw [p2 h6] at h0; cases h0
+    · exact hV.sa j u k hu0 hp hsa
+    · rw [hj] at hu
+      exact step_spawn_stopped ht h3 h hu
+  · -- pd
+    intro j u k hu hp hd
+    rcases hk.get_inv ht hu with ⟨-, rfl⟩ | ⟨-, hu0⟩ | ⟨-, -, h2, -⟩
+    · rw [hprog] at hp
+      cases hq with
+      | none hqs hnew hpc hprod hstop hget hstart hjoin hstartP =>
+        exfalso
+        rcases hshape k ht hp with ⟨a, b⟩ | ⟨a, -⟩ | a
+        · rw [hstartP a k hp] at hd; cases hd
+        · exact hpc.2.2.1 a
+        · exact hpc.2.2.2 a
+      | op q q' qt' lbl0 hq0 hst hq' hqs hnew hpc hprod hget hstop =>
+        have hpc' : t.pc = .prod := by
+          rcases hshape k ht hp with ⟨a, -⟩ | ⟨a, -⟩ | a
+          · rcases hpc with h5 | h5 | h5 <;> rw [a] at h5 <;> cases h5
+          · exact a
+          · rcases hpc with h5 | h5 | h5 <;> rw [a] at h5 <;> cases h5
+        obtain ⟨t'', h1, hqt'⟩ := step_prod_qt ht hpc' hq0 hst h
+        rw [hself] at h1; cases h1
+        rcases hprod hpc' with ⟨a, -⟩ | ⟨-, a⟩
+        · rw [a] at hd; cases hd
+        · rw [hqt']; exact a
+    · exact hV.pd j u k hu0 hp hd
+    · rw [h2] at hd; cases hd
+  · -- jn
+    intro j u hu hpcu
+    -- the queues an old thread refers to keep a requested stop
+    have hkeep : ∀ (g : Nat) (q0 : Queue.Shared), c.sh.qs[g]? = some q0 → q0.stopRequested = true →
+        ∃ q1, c'.sh.qs[g]? = some q1 ∧ q1.stopRequested = true := by
+      intro g q0 hq0 hs0
+      cases hq with
+      | none hqs => exact ⟨q0, hqs g q0 hq0, hs0⟩
+      | op q q' qt' lbl0 hq1 hst hq' hqs =>
+        by_cases hg : g = t.g
+        · subst hg
+          rw [hq1] at hq0; obtain rfl := Option.some.inj hq0
+          exact ⟨q', hq', (Queue.stepThread_fault lbl0 q' qt' hst).2.1 hs0⟩
+        · exact ⟨q0, hqs g q0 hg hq0, hs0⟩
+    rcases hk.get_inv ht hu with ⟨-, rfl⟩ | ⟨-, hu0⟩ | ⟨-, -, h2, -⟩
+    · cases hk with
+      | install _ _ _ _ _ _ _ h2 => rw [h2] at hpcu; cases hpcu
+      | spawn _ _ _ _ _ _ h2 => rw [h2] at hpcu; cases hpcu
+      | plain hths hgen henq hlen h1 h2 hstopK =>
+        rcases hstopK (Or.inr hpcu) with ⟨hp0 | hp0, hg0⟩ | ⟨hp0, -⟩
+        · -- `maybe_stop` has just returned
+          cases hq with
+          | none hqs hnew hpc => exact absurd hp0 hpc.1
+          | op q q' qt' lbl0 hq0 hst hq' hqs hnew hpc hprod hget hstop =>
+            obtain ⟨hkind, hsr0⟩ := hS.shapeS tid t ht hp0
+            have hns : t.qt.pc ≠ .start := by intro h0; rw [h0] at hkind; cases hkind
+            obtain ⟨hm1, hm2, -⟩ := (Queue.stepThread_stop lbl0 q' qt' hst hns).2.2 hkind
+            refine ⟨q', by rw [hg0]; exact hq', ?_⟩
+            by_cases hm : t.qt.pc = .mAcq
+            · exact hm1 hm
+            · rw [hm2 hm]
+              obtain ⟨q0, hq00, hs0⟩ := hsr0 hm
+              rw [hq0] at hq00; rw [Option.some.inj hq00]; exact hs0
+        · exact absurd hpcu (step_not_join ht h (Or.inl hp0) _ hself)
+        · exact absurd hpcu (step_not_join ht h (Or.inr hp0) _ hself)
+    · obtain ⟨q0, hq0, hs0⟩ := hV.jn j u hu0 hpcu
+      exact hkeep u.g q0 hq0 hs0
+    · rw [h2] at hpcu; cases hpcu
+  · -- hasP
+    intro k hkl
+    have hfwd : ∀ (j : Queue.Tid) (u : Thread), c.ths[j]? = some u → ∃ u', c'.ths[j]? = some u' ∧ u'.prog = u.prog := by
+      intro j u hu
+      by_cases hj : j = tid
+      · subst hj; rw [ht] at hu; obtain rfl := Option.some.inj hu; exact ⟨t', hself, hprog⟩
+      · exact ⟨u, hk.get_other hj hu, rfl⟩
+    have hold : k < c.sh.qs.length → t.pc ≠ .iiSpawn →
+        (∃ (tp : Queue.Tid) (P : Thread), c'.ths[tp]? = some P ∧ P.prog = .producer k) ∨
+        (∃ (j : Queue.Tid) (u : Thread), c'.ths[j]? = some u ∧ u.pc = .iiSpawn ∧ u.g = k) := by
+      intro hk0 hne
+      rcases hV.hasP k hk0 with ⟨tp, P, hP, hpP⟩ | ⟨j, u, hu, hpu, hgu⟩
+      · obtain ⟨P', hP', hpP'⟩ := hfwd tp P hP
+        exact Or.inl ⟨tp, P', hP', by rw [hpP']; exact hpP⟩
+      · have hj : j ≠ tid := by
+          rintro rfl; rw [ht] at hu; rw [← Option.some.inj hu] at hpu; exact hne hpu
+        exact Or.inr ⟨j, u, hk.get_other hj hu, hpu, hgu⟩
+    cases hk with
+    | plain hths hgen henq hlen h1 h2 hstopK => exact hold (by omega) h1
+    | install hths hgen henq hlen hfresh hg h1 h2 hprog' =>
+      by_cases hk0 : k < c.sh.qs.length
+      · exact hold hk0 h1
+      · exact Or.inr ⟨tid, t', hself, h2, by omega⟩
+    | spawn p hths hgen henq hlen h1 h2 hp hpc hqt =>
+      have hnew : c'.ths[c.ths.length]? = some p := by
+        rw [hths, List.getElem?_append_right (by simp)]; simp
+      rcases hV.hasP k (by omega) with ⟨tp, P, hP, hpP⟩ | ⟨j, u, hu, hpu, hgu⟩
+      · obtain ⟨P', hP', hpP'⟩ := hfwd tp P hP
+        exact Or.inl ⟨tp, P', hP', by rw [hpP']; exact hpP⟩
+      · by_cases hj : j = tid
+        · subst hj
+          rw [ht] at hu; obtain rfl := Option.some.inj hu
+          exact Or.inl ⟨c.ths.length, p, hnew, by rw [hp, hgu]⟩
+        · exact Or.inr ⟨j, u, (Kind.spawn p hths hgen henq hlen h1 h2 hp hpc hqt).get_other hj hu, hpu, hgu⟩
+
+theorem vinv_reachable {p : Nat} {progs : List Prog} {c : Cfg} (hreq : Requests progs)
+    (h : Reachable (init p progs) c) : VInv c := by
+  induction h with
+  | init => exact vinv_init p progs hreq
+  | step hr hs ih =>
+    have hr' := Reachable.step hr hs
+    exact vinv_step (ginv_reachable hreq hr) (ginv_reachable hreq hr') (iinv_reachable hreq hr)
+      (uinv_reachable hreq hr) (sinv_reachable hreq hr) (sinv_reachable hreq hr') ih hs
+
 end MlModel.Prefetch
